@@ -100,7 +100,12 @@ def mk_program(env):
             # the shared named type is also (or only, when k = 1: then it is used twice on the serialization side) the return type
             # of a serialized method: a property of the serialization schema (never executed here)
             wrap = rng.choice([lambda x: x, lambda x: Coll("list", x), lambda x: opt(x)])
-            t.methods.append({"name": g.fresh("m"), "alias": None, "prop": rng.random() < 0.3, "ret": wrap(shared), "expr": "None"})
+            m = {"name": g.fresh("m"), "alias": None, "prop": rng.random() < 0.3, "ret": wrap(shared), "expr": "None"}
+            if rng.random() < 0.5:
+                # ... only through the method's own conversion: the method itself returns a plain int
+                m.update(conv="vf_conv_" + m["name"], raw_ret="int", expr="0")
+                tags.add("method-conversion-to-named-type")
+            t.methods.append(m)
             tags.add("method-returns-named-type")
         if rng.random() < 0.4:  # recursion
             t.fields.append(F(g.fresh("f"), rng.choice([opt(Ref(t.name)), Coll("list", Ref(t.name))]), default=None))
